@@ -99,30 +99,41 @@ Proof.
   destruct X as (Eg & _ & Ev). rewrite Eg. destruct (gen s =? snd k); [|exact L]. intros Z. apply L. now apply Ev.
 Qed.
 
+(* cr: created, or the null id (events that carry no id carry KEY_NULL; OW KEY_NULL is the plain invariant) *)
+Definition cr (m : smap eloc) (k : key) : Prop := k = KEY_NULL \/ created m k.
+Lemma cr_insert f m k0 m' k : SmInv m -> insert_with f m = Some (k0, m') -> cr m k -> cr m' k.
+Proof. intros Hi E [N0|C]; [now left|right; eapply created_insert; eauto]. Qed.
+Lemma cr_new f m k0 m' : SmInv m -> insert_with f m = Some (k0, m') -> cr m' k0.
+Proof. intros Hi E. right. eapply created_new; eauto. Qed.
+Lemma cr_remove m k1 v m' k : SmInv m -> sm_remove k1 m = Some (v, m') -> cr m k -> cr m' k.
+Proof. intros Hi E [N0|C]; [now left|right; eapply created_remove; eauto]. Qed.
+Lemma cr_shape m m' k : shape m' = shape m -> cr m k -> cr m' k.
+Proof. intros Hs [N0|C]; [now left|right; eapply created_shape; eauto]. Qed.
+
 (* ---------- world level ---------- *)
 Section OW.
 Variable k : key.
-Definition CE (w : world) : Prop := SmInv (w_ents w) /\ created (w_ents w) k.
+Definition CE (w : world) : Prop := SmInv (w_ents w) /\ cr (w_ents w) k.
 Definition OW (w : world) : Prop :=
-  SmInv (w_ents w) /\ exists ks, reserved_ids w ks /\ (In k ks \/ created (w_ents w) k).
+  SmInv (w_ents w) /\ exists ks, reserved_ids w ks /\ (In k ks \/ cr (w_ents w) k).
 
 Lemma CE_shape w w' : shape (w_ents w') = shape (w_ents w) -> CE w -> CE w'.
-Proof. intros Hs [A B]. split; [eapply sview_inv; eauto|eapply created_shape; eauto]. Qed.
+Proof. intros Hs [A B]. split; [eapply sview_inv; eauto|eapply cr_shape; eauto]. Qed.
 Lemma CE_eo w w' : eo w' = eo w -> CE w -> CE w'.
 Proof. intros H. apply CE_shape. exact (proj1 (eo_parts _ _ H)). Qed.
 Lemma CE_remove w k1 v m' : CE w -> sm_remove k1 (w_ents w) = Some (v, m') -> CE (set_ents w m').
-Proof. intros [A B] E. split; cbn [w_ents set_ents]; [eapply remove_inv; eauto|eapply created_remove; eauto]. Qed.
+Proof. intros [A B] E. split; cbn [w_ents set_ents]; [eapply remove_inv; eauto|eapply cr_remove; eauto]. Qed.
 
 Lemma OW_eo w w' : eo w' = eo w -> OW w -> OW w'.
 Proof.
   intros H [A (ks & R & C)]. destruct (eo_parts _ _ H) as (Hs & Hc & Hr). split; [eapply sview_inv; eauto|].
-  exists ks. split; [exact (ReserveInv_shape w w' Hs Hc Hr ks R)|]. destruct C as [C|C]; [now left|right; eapply created_shape; eauto].
+  exists ks. split; [exact (ReserveInv_shape w w' Hs Hc Hr ks R)|]. destruct C as [C|C]; [now left|right; eapply cr_shape; eauto].
 Qed.
 Lemma OW_ro w w' : ro w' = ro w -> OW w -> OW w'.
 Proof. intros H. apply OW_eo. now apply ro_eo. Qed.
 
 (* nothing reserved: the id was created *)
-Lemma OW_quiet w : OW w -> w_rcnt w = 0 -> created (w_ents w) k.
+Lemma OW_quiet w : OW w -> w_rcnt w = 0 -> cr (w_ents w) k.
 Proof.
   intros [_ (ks & R & C)] Hz. unfold reserved_ids in R. rewrite Hz in R. cbn [N.to_nat predict] in R. inversion R; subst ks.
   destruct C as [[]|C]; exact C.
@@ -139,7 +150,7 @@ Qed.
 
 (* materialisation: never fails under the cursor invariant, creates every promised id, ends quiet *)
 Lemma spawn_all_n_CE n : forall w ks i, SmInv (w_ents w) -> predict n (next_key_iter (w_ents w)) (w_ents w) = Some (ks, i) ->
-  In k ks \/ created (w_ents w) k ->
+  In k ks \/ cr (w_ents w) k ->
   exists w', spawn_all_n n w = ROk tt w' /\ CE w' /\ w_rcnt w' = w_rcnt w.
 Proof.
   induction n as [|n IH]; intros w ks i Hi Hp C.
@@ -155,7 +166,7 @@ Proof.
     destruct (IH (set_ents w1 b) ks' i) as (w' & Es & HC & Hr).
     + cbn [w_ents set_ents]. eapply insert_inv; eauto.
     + cbn [w_ents set_ents]. rewrite (shape_nki0 _ _ (eq_sym Hsb)), (shape_predict _ _ _ (eq_sym Hsb)). exact P1.
-    + cbn [w_ents set_ents]. destruct C as [[<-|C]|C]; [right; eapply created_new; eauto|now left|right; eapply created_insert; eauto].
+    + cbn [w_ents set_ents]. destruct C as [[<-|C]|C]; [right; eapply cr_new; eauto|now left|right; eapply cr_insert; eauto].
     + exists w'. split; [exact Es|]. split; [exact HC|]. cbn [w_rcnt set_ents] in Hr. congruence.
 Qed.
 Lemma spawn_all_OW w : OW w -> exists w', spawn_all w = ROk tt w' /\ OW w' /\ Quiet w'.
@@ -321,17 +332,201 @@ Qed.
 (* ... through the whole propagation, whatever the handlers do; where the propagation ends with nothing reserved
    (Quiet.flush_Q: every propagation started from a quiet world or with a Spawn event queued), the id was created:
    it is the id of a live entity, or of one that was despawned since and is dead for good *)
-Theorem owed_id_is_created beh k q w : OW k w -> ~ ubf (res_fail (flush beh q w)) -> w_rcnt (res_world (flush beh q w)) = 0 ->
+Theorem owed_id_is_created beh k q w : k <> KEY_NULL -> OW k w -> ~ ubf (res_fail (flush beh q w)) -> w_rcnt (res_world (flush beh q w)) = 0 ->
   let w' := res_world (flush beh q w) in sm_get k (w_ents w') <> None \/ Dead (w_ents w') k.
-Proof. intros H Hn Hz. exact (OW_quiet k _ (flush_OW beh k q w H Hn) Hz). Qed.
+Proof. intros Hk H Hn Hz. destruct (OW_quiet k _ (flush_OW beh k q w H Hn) Hz) as [N0|C]; [contradiction|exact C]. Qed.
 
 (* the Spawn effect itself: it cannot fail under the cursor invariant, creates every owed id, leaves nothing reserved *)
-Theorem spawn_effect_creates_owed k ev loc w : OW k w ->
+Theorem spawn_effect_creates_owed k ev loc w : k <> KEY_NULL -> OW k w ->
   exists w', builtin_effect KSpawn ev loc w = ROk tt w' /\ Quiet w' /\ (sm_get k (w_ents w') <> None \/ Dead (w_ents w') k).
 Proof.
-  intros H. cbn [builtin_effect]. destruct (spawn_all_OW k w H) as (w' & E & H' & Q). exists w'. split; [exact E|]. split; [exact Q|].
-  exact (OW_quiet k w' H' (proj1 Q)).
+  intros Hk H. cbn [builtin_effect]. destruct (spawn_all_OW k w H) as (w' & E & H' & Q). exists w'. split; [exact E|]. split; [exact Q|].
+  destruct (OW_quiet k w' H' (proj1 Q)) as [N0|C]; [contradiction|exact C].
 Qed.
+
+(* ---------- from a Sender::spawn inside a handler body to the end of the propagation ---------- *)
+(* RO: the plain invariant (entity map well formed, cursor invariant); it is OW for the null id.  Every event a
+   handler body queues carries the null id or an owed id (only Sender::spawn puts an id into an event, and that id
+   is the one its reservation returned); deliveries and the stack machine keep this for the whole queue and for
+   everything already delivered. *)
+Definition RO (w : world) : Prop := SmInv (w_ents w) /\ ReserveInv w.
+Lemma RO_ro w w' : ro w' = ro w -> RO w -> RO w'.
+Proof. intros H [A B]. split; [now rewrite (ro_ents _ _ H)|eapply RI_ro; eauto]. Qed.
+Lemma RO_reserve w : RO w -> RO (res_world (reserve w)).
+Proof. intros [A B]. split; [now rewrite reserve_ents|now apply RI_reserve]. Qed.
+Definition nullid (x : qitem) : Prop := ev_id (qi_ev x) = KEY_NULL.
+
+Lemma run_actions_spawn_owed acts : forall ps t fresh sent w, RO w ->
+  forall x, In x (fst (fst (run_actions acts ps t fresh sent w))) ->
+    In x sent \/ nullid x \/ OW (ev_id (qi_ev x)) (snd (fst (run_actions acts ps t fresh sent w))).
+Proof.
+  induction acts as [|a rest IH]; intros ps t fresh sent w HR x; cbn [run_actions]; [cbn [fst snd]; auto|].
+  assert (step : forall w' sent' fresh', RO w' ->
+     (forall y, In y sent' -> In y sent \/ nullid y \/ OW (ev_id (qi_ev y)) w') ->
+     In x (fst (fst (run_actions rest ps t fresh' sent' w'))) ->
+     In x sent \/ nullid x \/ OW (ev_id (qi_ev x)) (snd (fst (run_actions rest ps t fresh' sent' w')))).
+  { intros w' sent' fresh' HR' Hs Hin. destruct (IH ps t fresh' sent' w' HR' x Hin) as [H|[H|H]]; [|auto|auto].
+    destruct (Hs x H) as [H1|[H1|H1]]; [auto|auto|]. right. right. now apply run_actions_OW. }
+  pose proof (r_use_fuel ro ltac:(fr) w) as Hf. destruct (use_fuel w) as [ok w0]. cbn [snd] in Hf.
+  destruct ok; cbn [negb]; [|apply step; [exact HR|auto]].
+  assert (HR0 : RO w0) by (eapply RO_ro; eauto).
+  destruct a; repeat (break_match; cbn [fst snd]).
+  all: repeat match goal with
+    | H : fresh_serial ?x = (_, ?y) |- _ => let E := fresh "E" in pose proof (r_fresh_serial ro ltac:(fr) x) as E; rewrite H in E; cbn [snd] in E; clear H
+    | H : new_cval ?x ?c = (_, ?y) |- _ => let E := fresh "E" in pose proof (r_new_cval ro ltac:(fr) x c) as E; rewrite H in E; cbn [snd] in E; clear H
+    end.
+  all: try (intros Hx; left; exact Hx).
+  all: try (apply step; [ repeat first [ assumption | match goal with E : ro ?a = ro ?b |- RO ?a => apply (RO_ro b a E) end ] | intros y Hy; try (apply in_app_or in Hy as [Hy|[<-|[]]]); [left; exact Hy|right; left; reflexivity] ]).
+  all: try (apply step; [ repeat first [ assumption | match goal with E : ro ?a = ro ?b |- RO ?a => apply (RO_ro b a E) end ] | intros y Hy; left; exact Hy ]).
+  all: match goal with Hr : reserve ?w0 = ROk ?a ?w1 |- _ =>
+         pose proof (RO_reserve w0 HR0) as HR1; rewrite Hr in HR1; cbn [res_world] in HR1;
+         pose proof (reserved_id_is_owed w0 a w1 (proj1 HR0) (proj2 HR0) Hr) as HO end.
+  all: apply step; [eapply RO_ro; [apply (r_push_known ro); fr|exact HR1]|].
+  all: intros y Hy; apply in_app_or in Hy as [Hy|[<-|[]]]; [left; exact Hy|right; right; cbn [qi_ev ev_id]; eapply OW_ro; [apply (r_push_known ro); fr|exact HO]].
+Qed.
+
+(* the handler, with its views and its log entry around the body *)
+Theorem run_handler_spawn_owed beh w h it tag loc : RO w ->
+  forall x, In x (hr_sent (fst (run_handler beh w h it tag loc))) ->
+    nullid x \/ OW (ev_id (qi_ev x)) (snd (run_handler beh w h it tag loc)).
+Proof.
+  intros HR x. unfold run_handler. destruct (param_views w (h_params h) loc) as [f|[ritems views]]; [cbn; tauto|].
+  match goal with |- context [run_actions ?a ?b ?c ?d ?e ?x0] =>
+    assert (HR2 : RO x0) by (eapply RO_ro; [|exact HR]; rewrite (r_apply_writes ro ltac:(fr)); reflexivity);
+    pose proof (run_actions_spawn_owed a b c d e x0 HR2 x) as Hra; destruct (run_actions a b c d e x0) as [[sent w3] fl] end.
+  cbn [fst snd] in Hra.
+  assert (G : In x sent -> nullid x \/ OW (ev_id (qi_ev x)) w3) by (intros Hx; destruct (Hra Hx) as [[]|Hd]; exact Hd).
+  destruct fl; [exact G|]. destruct (_ =? _); exact G.
+Qed.
+
+Section Deliver.
+Variable beh : hinfo -> logent -> N -> script.
+
+Lemma RO_run_handler w h it tag loc : RO w -> RO (snd (run_handler beh w h it tag loc)).
+Proof.
+  intros [A B]. split; [|now apply run_handler_RI].
+  rewrite (r_run_handler w_ents ltac:(fr) ltac:(fr) ltac:(fr) ltac:(fr) beh w h it tag loc). exact A.
+Qed.
+
+Definition owed_all (l : list qitem) (w : world) : Prop := forall y, In y l -> nullid y \/ OW (ev_id (qi_ev y)) w.
+Lemma RO_OW_null w : RO w <-> OW KEY_NULL w.
+Proof.
+  split.
+  - intros [A [ks R]]. split; [exact A|]. exists ks. split; [exact R|]. right. now left.
+  - intros [A (ks & R & _)]. split; [exact A|now exists ks].
+Qed.
+Lemma owed_all_ro l w w' : ro w' = ro w -> owed_all l w -> owed_all l w'.
+Proof. intros H Ho y Hy. destruct (Ho y Hy) as [N0|O]; [now left|right; eapply OW_ro; eauto]. Qed.
+
+Lemma run_handlers_spawn_owed hl : forall w it tag loc sent, RO w -> owed_all sent w ->
+  let r := run_handlers beh hl w it tag loc sent in
+  RO (fst (fst (fst (fst r)))) /\ owed_all (snd (fst (fst r))) (fst (fst (fst (fst r)))).
+Proof.
+  induction hl as [|hk rest IH]; intros w it tag loc sent HR Ho; cbn [run_handlers]; [cbn [fst snd]; auto|].
+  destruct (sm_get hk (w_hs w)) as [h|]; [|cbn [fst snd]; auto].
+  pose proof (RO_run_handler w h it tag loc HR) as H1. pose proof (run_handler_spawn_owed beh w h it tag loc HR) as H2.
+  assert (H3 : owed_all sent (snd (run_handler beh w h it tag loc))).
+  { intros y Hy. destruct (Ho y Hy) as [N0|O]; [now left|right; now apply run_handler_OW]. }
+  destruct (run_handler beh w h it tag loc) as [r w1]. cbn [fst snd] in *.
+  assert (H4 : owed_all (sent ++ hr_sent r) w1) by (intros y Hy; apply in_app_or in Hy as [Hy|Hy]; auto).
+  assert (Hd : forall t0 tg ev0, RO (ev_drop w1 t0 tg ev0) /\ owed_all (sent ++ hr_sent r) (ev_drop w1 t0 tg ev0)).
+  { intros. split; [eapply RO_ro; [apply (r_ev_drop ro); fr|exact H1]|eapply owed_all_ro; [apply (r_ev_drop ro); fr|exact H4]]. }
+  destruct (hr_fail r); [destruct (hr_taken r); cbn [fst snd]; [apply Hd|auto]|]. destruct (hr_taken r); cbn [fst snd]; [apply Hd|]. now apply IH.
+Qed.
+
+(* one delivery: every event it queued that carries an id carries an owed one, in the world after the delivery
+   (handlers, then the built-in effect or the release of the event) *)
+Theorem deliver_one_spawn_owed it w : RO w -> ~ ubf (snd (deliver_one beh it w)) ->
+  owed_all (fst (fst (deliver_one beh it w))) (snd (fst (deliver_one beh it w))).
+Proof.
+  intros HR. unfold deliver_one.
+  assert (Hfin : forall tag kind hl loc,
+     let r := (let '(w1, ev, sent, taken, fl) := run_handlers beh hl w it tag loc [] in
+              match fl with
+              | Some f => (sent, (if taken then w1 else ev_drop w1 (qi_targeted it) tag ev), Some f)
+              | None => if taken then (sent, w1, None) else
+                  match kind with
+                  | KNormal => (sent, ev_drop w1 (qi_targeted it) tag ev, None)
+                  | _ => let '(w3, f) := fail_of (builtin_effect kind ev loc w1) in (sent, w3, f)
+                  end
+              end) in
+     ~ ubf (snd r) -> owed_all (fst (fst r)) (snd (fst r))).
+  { intros tag kind hl loc. pose proof (run_handlers_spawn_owed hl w it tag loc [] HR ltac:(intros y [])) as H1.
+    destruct (run_handlers beh hl w it tag loc []) as [[[[w1 ev] sent] taken] fl]. cbn [fst snd] in H1. cbn zeta. destruct H1 as [H1 H2].
+    assert (Hd : forall t0 tg ev0, owed_all sent (ev_drop w1 t0 tg ev0)) by (intros; eapply owed_all_ro; [apply (r_ev_drop ro); fr|exact H2]).
+    assert (HB : forall kd y, In y sent -> nullid y \/ match builtin_effect kd ev loc w1 with ROk _ w3 => OW (ev_id (qi_ev y)) w3 | RFail f w3 => ~ ubf (Some f) -> OW (ev_id (qi_ev y)) w3 end)
+      by (intros kd y Hy; destruct (H2 y Hy) as [N0|O]; [now left|right; now apply builtin_effect_OW]).
+    destruct fl; [destruct taken; cbn [fst snd]; intros _; auto|]. destruct taken; [cbn [fst snd]; auto|].
+    destruct kind; try (cbn [fst snd]; intros _; apply Hd);
+      match goal with |- context [builtin_effect ?kd ev loc w1] => specialize (HB kd); destruct (builtin_effect kd ev loc w1) as [[] w3|f w3]; cbn [fail_of fst snd res_world] in *;
+        intros Hn y Hy; destruct (HB y Hy) as [N0|O]; [now left|right; auto|now left|right; auto] end. }
+  destruct (qi_targeted it).
+  - destruct (get_by_index (w_tev w) (qi_idx it)) as [[k0 info]|]; [|cbn [fst snd]; intros _ y []].
+    destruct (sm_get (qi_target it) (w_ents w)) as [loc|]; [|cbn [fst snd]; intros _ y []].
+    destruct (slab_get (w_archs w) (fst loc)); [apply Hfin|cbn [fst snd]; intros _ y []].
+  - destruct (get_by_index (w_gev w) (qi_idx it)) as [[k0 info]|]; [|cbn [fst snd]; intros _ y []].
+    destruct (nget (w_glists w) (qi_idx it)); [apply Hfin|cbn [fst snd]; intros _ y []].
+Qed.
+End Deliver.
+
+(* ---------- the whole propagation ---------- *)
+Section Loop.
+Variable beh : hinfo -> logent -> N -> script.
+
+(* the stack machine: the world satisfies the plain invariant and every queued event that carries an id carries an
+   owed one - at every step, for every handler behaviour; FUB outcomes excluded as everywhere *)
+Theorem flush_loop_spawn_owed : forall n q (st : wst) acc tr st' oc,
+  Loop.flush wst qitem (run_w beh) unwind_w n q st acc = Some (tr, st', oc) ->
+  RO (fst st) -> owed_all q (fst st) -> owed_all acc (fst st) -> (oc = Aborted -> ~ ubf (snd st')) ->
+  RO (fst st') /\ owed_all tr (fst st').
+Proof.
+  induction n as [|n IH]; intros q st acc tr st' oc H HR Ho Ha Hnu; [discriminate|].
+  cbn [Loop.flush] in H. destruct (rev q) as [|e r] eqn:Er.
+  - unfold step in H. rewrite Er in H. inversion H; subst. auto.
+  - assert (Hq : q = rev r ++ [e]) by (rewrite <- (rev_involutive q), Er; reflexivity).
+    rewrite Hq, step_snoc in H. unfold run_w in H.
+    pose proof (deliver_one_OW beh KEY_NULL e (fst st) (proj1 (RO_OW_null _) HR)) as HD.
+    pose proof (deliver_one_spawn_owed beh e (fst st) HR) as HS.
+    assert (HK : forall y, nullid y \/ OW (ev_id (qi_ev y)) (fst st) -> ~ ubf (snd (deliver_one beh e (fst st))) ->
+                 nullid y \/ OW (ev_id (qi_ev y)) (snd (fst (deliver_one beh e (fst st))))).
+    { intros y [N0|O] Hn; [now left|right; now apply deliver_one_OW]. }
+    assert (Hqe : forall y, In y (rev r) \/ y = e -> nullid y \/ OW (ev_id (qi_ev y)) (fst st)).
+    { intros y Hy. apply Ho. rewrite Hq. apply in_or_app. destruct Hy as [Hy| ->]; [now left|right; now left]. }
+    destruct (deliver_one beh e (fst st)) as [[sent w2] fl2]. cbn [fst snd] in *.
+    destruct fl2 as [f|].
+    + inversion H; subst st' tr. clear H. unfold unwind_w in *. cbn [fst snd] in *. destruct f as [kf|s]; [|exfalso; apply Hnu; [congruence|exact I]].
+      cbn [fst] in *.
+      assert (Hn : ~ ubf (Some (FPanic kf))) by (cbn; tauto).
+      assert (Hall : forall y, nullid y \/ OW (ev_id (qi_ev y)) w2 ->
+                nullid y \/ OW (ev_id (qi_ev y)) (match spawn_all (unwind_queue (rev r ++ sent) w2) with ROk _ w3 => w3 | RFail _ w3 => w3 end)).
+      { intros y [N0|O]; [now left|right]. assert (H2 : OW (ev_id (qi_ev y)) (unwind_queue (rev r ++ sent) w2)) by (eapply OW_eo; [apply eo_unwind_queue|exact O]).
+        destruct (spawn_all_OW _ _ H2) as (w3 & -> & Hw3 & _). exact Hw3. }
+      split.
+      * destruct (Hall {| qi_targeted := false; qi_idx := 0; qi_target := KEY_NULL; qi_ev := mkEv 0 0 KEY_NULL |}) as [_|O]; [right; cbn [qi_ev ev_id]; now apply HD| |now apply RO_OW_null].
+        assert (H2 : OW KEY_NULL (unwind_queue (rev r ++ sent) w2)) by (eapply OW_eo; [apply eo_unwind_queue|now apply HD]).
+        destruct (spawn_all_OW _ _ H2) as (w3 & -> & Hw3 & _). now apply RO_OW_null.
+      * intros y Hy. apply Hall. apply HK; [|exact Hn]. apply in_app_or in Hy as [Hy|[<-|[]]]; [now apply Ha|apply Hqe; now right].
+    + assert (Hn : ~ ubf None) by (cbn; tauto).
+      apply (IH _ _ _ _ _ _ H); [| | |exact Hnu]; cbn [fst].
+      * apply RO_OW_null. now apply HD.
+      * intros y Hy. apply in_app_or in Hy as [Hy|Hy]; [apply HK; [apply Hqe; now left|exact Hn]|apply HS; [exact Hn|now apply in_rev]].
+      * intros y Hy. apply HK; [|exact Hn]. apply in_app_or in Hy as [Hy|[<-|[]]]; [now apply Ha|apply Hqe; now right].
+Qed.
+
+(* a whole propagation: every event that was delivered during it and carries an id - every Spawn event of a
+   Sender::spawn or World::spawn - carries an id that was created by the time the propagation is over with nothing
+   reserved: the id of a live entity, or of one despawned since (dead for good) *)
+Theorem delivered_spawn_ids_are_created : forall q w tr w' fl oc,
+  Loop.flush wst qitem (run_w beh) unwind_w FUEL q (w, None) [] = Some (tr, (w', fl), oc) ->
+  RO w -> owed_all q w -> (oc = Aborted -> ~ ubf fl) -> w_rcnt w' = 0 ->
+  forall x, In x tr -> ev_id (qi_ev x) <> KEY_NULL ->
+    sm_get (ev_id (qi_ev x)) (w_ents w') <> None \/ Dead (w_ents w') (ev_id (qi_ev x)).
+Proof.
+  intros q w tr w' fl oc H HR Ho Hnu Hz x Hx Hk.
+  destruct (flush_loop_spawn_owed _ _ _ _ _ _ _ H HR Ho ltac:(intros y []) Hnu) as [_ B]. cbn [fst] in B.
+  destruct (B x Hx) as [N0|O]; [contradiction|]. destruct (OW_quiet _ _ O Hz) as [N0|C]; [contradiction|exact C].
+Qed.
+End Loop.
 
 (* not vacuous, and "from the moment its Spawn event has been delivered", not before: on a map with one live
    entity and one recycled slot, the two ids NextKeyIter promises are neither live nor dead; after the two
